@@ -15,4 +15,5 @@ ov=$(mktemp -d /var/tmp/verif-ov.XXXXXX)
 rc=$?
 rm -rf "$ov"
 [ $rc -eq 0 ] || exit 1
+( cd harness && go build -race -o ../bin/racepass ./cmd/racepass ) || echo "note: -race build failed; the race pass will be skipped"
 ./bin/verif list
